@@ -678,3 +678,72 @@ func (o *Once) Do(f func()) {
 	}
 	o.m.Unlock()
 }
+
+// ---- additions: sends on channels of interface type, try-locks ---------------
+
+// ifaceValue converts a value that is assignable to the interface type T.
+func ifaceValue[T any](v any) T {
+	if v == nil {
+		var zero T
+		return zero
+	}
+	return v.(T)
+}
+
+// SendAny is Send for `ch <- v` where the channel's element type is an
+// interface and v has another (assignable) type: one T cannot be inferred for
+// both operands of the generic Send.
+func SendAny[T any](ch chan<- T, v any) { Send(ch, ifaceValue[T](v)) }
+
+// SendCaseAny is SendCase for such a send inside a select.
+func SendCaseAny[T any](ch chan<- T, v any) SelCase { return SendCase(ch, ifaceValue[T](v)) }
+
+// SelSendAny is SelSend for such a send inside a select.
+func SelSendAny[T any](ch chan<- T, v any) { SelSend(ch, ifaceValue[T](v)) }
+
+func (m *RWMutex) TryLock() bool {
+	s := S
+	if s == nil || s.aborting {
+		return true
+	}
+	m.sync(s)
+	t := s.cur
+	t.pend = op{kind: OpYield, obj: m.ord}
+	s.yield(t)
+	if m.writer || m.readers > 0 {
+		t.stepAsideNext = true
+		return false
+	}
+	m.writer = true
+	t.vc.join(m.wvc)
+	t.vc.join(m.rvc)
+	t.vc.tick(t.id)
+	return true
+}
+
+func (m *RWMutex) TryRLock() bool {
+	s := S
+	if s == nil || s.aborting {
+		return true
+	}
+	m.sync(s)
+	t := s.cur
+	t.pend = op{kind: OpYield, obj: m.ord}
+	s.yield(t)
+	if m.writer {
+		t.stepAsideNext = true
+		return false
+	}
+	m.readers++
+	t.vc.join(m.wvc)
+	t.vc.tick(t.id)
+	return true
+}
+
+type rlocker RWMutex
+
+func (r *rlocker) Lock()   { (*RWMutex)(r).RLock() }
+func (r *rlocker) Unlock() { (*RWMutex)(r).RUnlock() }
+
+// RLocker returns a Locker whose Lock and Unlock are RLock and RUnlock.
+func (m *RWMutex) RLocker() Locker { return (*rlocker)(m) }
